@@ -387,7 +387,13 @@ func (cs *ContractSet) addClause(cur **Contract, pkgPath, pos, text string) erro
 			c.AtCall = map[string][]*Clause{}
 			c.AtCallAssume = map[string][]*Clause{}
 		}
-		if !(strings.Count(callee, ".") >= 2 && !strings.HasPrefix(callee, "(")) {
+		stdlib := false
+		for _, sp := range []string{"fmt.", "io.", "time.", "bytes.", "errors.", "sort.", "strings."} {
+			if strings.HasPrefix(callee, sp) {
+				stdlib = true // a standard-library function: its contract key is the plain name
+			}
+		}
+		if !stdlib && !(strings.Count(callee, ".") >= 2 && !strings.HasPrefix(callee, "(")) {
 			callee = qualify(pkgPath, callee)
 		}
 		if kwd == " assumes" {
